@@ -112,6 +112,9 @@ def cases(shard, tier):
                 seconds += ['window', 'data', 'dtype']
             for second in seconds:
                 yield dict(shard, n=n, frm=f, to=t, user=user, itype=it, second=second)
+            if user != 'none':
+                # the user's value assigned through the public setter after the frame was created
+                yield dict(shard, n=n, frm=f, to=t, user=user, itype=it, second='none', user_route='later')
             if it is not None and user in ('none', 'index_max', 'spacing=0'):
                 # the index type is assigned through the public setter after the frame was created ...
                 yield dict(shard, n=n, frm=f, to=t, user=user, itype=it, second='none', itype_route='later')
@@ -210,8 +213,12 @@ def run_case(c):
     route = c.get('itype_route', 'kw')
     if c['itype'] and route == 'kw':
         fkw['index_type'] = c['itype']
+    user_later = None
     if c['user'] != 'none':
-        fkw[c['user'].split('=')[0]] = USER_VALUES[c['user']]
+        if c.get('user_route') == 'later':
+            user_later = {'op': 'set', 'h': 'F0', 'attr': c['user'].split('=')[0], 'part': 'value', 'value': USER_VALUES[c['user']]}
+        else:
+            fkw[c['user'].split('=')[0]] = USER_VALUES[c['user']]
     sp = {'sul': {'max_record_length': 8192},
           'ops': [S.op_lf(), S.op_origin(), S.op_add('channel', 'C0', 'INDEX'),
                   S.op_add('channel', 'C1', 'VALUE'),
@@ -219,6 +226,8 @@ def run_case(c):
     late = {'op': 'set', 'h': 'F0', 'attr': 'index_type', 'part': 'value', 'value': c['itype']}
     if route == 'later':
         sp['ops'].append(late)
+    if user_later:
+        sp['ops'].append(user_later)
     other = S.arr_spec('uint8', [n], list(range(n)))
     b = S.build(sp)
     viol = []
